@@ -344,10 +344,17 @@ def k_random(run, case):
         n = min(n, 300)
     if case.get("big"):
         n = int(rng.integers(1030, 1500)) if (unit in "rd" and all_pairs) else int(rng.integers(1030, 3000))
+    if case.get("huge"):
+        # a long geo-referenced log: 10^4 poses and more, decimetre steps in map (UTM-like) coordinates
+        n = int(rng.integers(10000, 12500))
+        p = np.array([4.5e5, 5.4e6, 300.0]) + np.cumsum(rng.normal(size=(n, 3)) * 0.1, axis=0)
+        case = dict(case, huge_p=p)
     arr = gen.traj_arrays(rng, n, stamp_cls="index") if not case.get("big") else \
         gen.traj_arrays(rng, n, pos_cls=["walk", "circle"][rng.integers(2)], rot_cls=["smooth", "uniform"][rng.integers(2)],
                         stamp_cls="index")
     p, R = arr["p"], arr["R"]
+    if case.get("huge"):
+        p = case.pop("huge_p")
     if case.get("nano"):
         # a slowly turning platform sampled at a high rate: a few nano-radians per frame about a
         # fixed axis (the relative angles are resolved to ~1e-16 rad, the oracle's band is 1e-13)
@@ -361,6 +368,8 @@ def k_random(run, case):
     elif unit == "m":
         total = float(np.sum(seg))
         delta = total * 10.0**rng.uniform(-2.5, 0.2) + 1e-12 if rng.random() < .9 else total * 3 + 1.0
+        if case.get("huge"):
+            delta = total * 10.0**rng.uniform(-2.5, -0.5)
     else:
         delta = rng.uniform(0.01, PI) if rng.random() < .9 else rng.uniform(PI, 4.0)
         if unit == "d":
@@ -636,6 +645,8 @@ def main(run):
     for i in run.mine({"quick": 8, "thorough": 48}[run.tier]):
         u, ap = [("r", 1), ("d", 1), ("m", 1), ("f", 1), ("r", 1), ("m", 0), ("d", 0), ("d", 1)][i % 8]
         k_random(run, run.case("random", 10**6 + i, big=True, unit=u, all_pairs=bool(ap)))
+    for i in run.mine({"quick": 2, "thorough": 12}[run.tier]):
+        k_random(run, run.case("random", 2 * 10**6 + i, big=True, huge=True, unit="m", all_pairs=bool(i % 2 == 0)))
     run.need("concurrent rounds: pair selection", "evo_rpe selections judged against the command line's delta / tolerance", "re-used metric evaluates the pairs selected on the current poses", "pairs satisfy 0 <= i < j < N", "frames: exactly the delta pairs",
              "meters consecutive: j is the first pose reaching delta since i",
              "meters consecutive: delta hit exactly by a selected pair",
